@@ -6,9 +6,9 @@ cd "$WT" || exit 2
 DEMO=$(git status --short tests | grep '^??' | head -1 | sed 's#^?? tests/##; s/\.rs$//')
 echo "demo test file: $DEMO" > "$OUT/summary.txt"
 cargo test --offline --test "$DEMO" > "$OUT/demo_with.txt" 2>&1; echo "demo WITH change: exit=$? $(grep -E '^test result' "$OUT/demo_with.txt" | tail -1)" >> "$OUT/summary.txt"
-git stash push -q -- src
+git diff -- src > "$OUT/cur.diff"; git apply -R "$OUT/cur.diff"   # (not git stash: the stash list is shared by all worktrees)
 cargo test --offline --test "$DEMO" > "$OUT/demo_without.txt" 2>&1; echo "demo WITHOUT change: exit=$? $(grep -E '^test result' "$OUT/demo_without.txt" | tail -1)" >> "$OUT/summary.txt"
-git stash pop -q
+git apply "$OUT/cur.diff"
 mv tests/"$DEMO".rs "$OUT/"   # the demo itself must not count as an existing test
 cargo nextest run --workspace --no-fail-fast --tool-config-file pb:/w/lib/nextest.toml --profile pb --test-threads 8 --offline > "$OUT/suite.txt" 2>&1
 cp "$OUT/$DEMO.rs" tests/
